@@ -30,6 +30,20 @@ def jobs(tier):
     import importlib.util, os
     sp = importlib.util.spec_from_file_location("vfjobs_x_C11", os.path.join(os.path.dirname(__file__), "C11.py")); m = importlib.util.module_from_spec(sp); m.Job = Job; sp.loader.exec_module(m)
     lj = m.loader_job(1, "C15.fd_count", skip_findings=True); lj.name = "loader.fd_count.F1"; J.append(lj)
+    # recipient side: the application takes descriptors out of a received message (real _dbus_message_iter_get_args_valist; va_list walked twice)
+    GA = [("h", "h"), ("hh", "hh"), ("hh", "hu"), ("huh", "huh"), ("uh", "uh"), ("h", "hh"), ("hhu", "hhh"), ("hhh", "hhh"), ("uhh", "uhu"), ("hhhh", "hhhh")]
+    for msg, spec in GA:
+        J.append(Job(name=f"get_args.{msg}.as.{spec}", group="C15.get_args", harness="harness/C15_get_args.c", defines={"MSG": '"' + msg + '"', "SPEC": '"' + spec + '"'}, real=["dbus/dbus-signature.c"],
+                     env=["assert_stubs.c"], checks="assert", unwind=14, unwindset=[f"_dbus_message_iter_get_args_valist.2:{len(spec) + 2}", f"_dbus_message_iter_get_args_valist.3:{len(spec) + 2}"], timeout=300, 
+                     encodes=["_dbus_message_iter_get_args_valist", "dbus_message_iter_get_arg_type", "_dbus_message_iter_check"],
+                     stubs=["DBusTypeReader = ghost cursor over the message's argument types with symbolic 32-bit values", "_dbus_dup / _dbus_close = ghost descriptor table with identities; the j-th dup fails (j symbolic)", "dbus_set_error = flag"],
+                     bounds=f"message arguments {msg}, caller asks for {spec}; 0..4 descriptors attached; descriptor indices in the body 32-bit symbolic; any one dup failing",
+                     shape=f"get_args {msg} read as {spec}"))
+    for msg in ("h", "u"):
+        J.append(Job(name=f"get_basic.{msg}", group="C15.get_args", harness="harness/C15_get_args.c", defines={"MSG": '"' + msg + '"', "SPEC": '"' + msg + '"', "GETBASIC": 1}, real=["dbus/dbus-signature.c"],
+                     env=["assert_stubs.c"], checks="assert", unwind=14, timeout=300, encodes=["dbus_message_iter_get_basic", "dbus_message_iter_get_arg_type", "_dbus_message_iter_check"],
+                     stubs=["DBusTypeReader = ghost cursor with a symbolic 32-bit value", "_dbus_dup / _dbus_close = ghost descriptor table with identities; dup may fail"],
+                     bounds="one argument; 0..4 descriptors attached; descriptor index 32-bit symbolic", shape=f"get_basic on {msg}"))
     # sender side: the descriptor duplicated by dbus_message_iter_append_basic is accounted to the message on every path (same job as C14.append; F24 is reported there)
     sp14 = importlib.util.spec_from_file_location("vfjobs_x_C14", os.path.join(os.path.dirname(__file__), "C14.py")); m14 = importlib.util.module_from_spec(sp14); m14.Job = Job; sp14.loader.exec_module(m14)
     for j in m14.jobs(tier):
